@@ -217,6 +217,27 @@ func ReadLit(in []byte) ([]byte, int, bool) {
 	return nil, 0, false
 }
 
+// unescName: in a name, '#' followed by two hexadecimal digits stands for that byte (7.3.5).
+func unescName(b []byte) []byte {
+	if bytes.IndexByte(b, '#') < 0 {
+		return b
+	}
+	out := []byte{}
+	for i := 0; i < len(b); i++ {
+		if b[i] == '#' && i+2 < len(b)+0 && i+2 <= len(b)-1+0 {
+			h1, ok1 := hexVal(b[i+1])
+			h2, ok2 := hexVal(b[i+2])
+			if ok1 && ok2 {
+				out = append(out, byte(h1*16+h2))
+				i += 2
+				continue
+			}
+		}
+		out = append(out, b[i])
+	}
+	return out
+}
+
 func hexVal(c byte) (int, bool) {
 	switch {
 	case '0' <= c && c <= '9':
@@ -242,7 +263,7 @@ func (r *rd) parseObj(refs bool, i int, depth int) (*pv, int, bool) {
 	switch {
 	case c == '/':
 		j := r.regEnd(i + 1)
-		return &pv{k: pvName, s: r.slice(i+1, j)}, j, true
+		return &pv{k: pvName, s: unescName(r.slice(i+1, j))}, j, true
 	case c == '(':
 		s, n, ok := ReadLit(r.b[i+1:])
 		if !ok {
